@@ -1221,7 +1221,7 @@ def main():
                "dropped when an analysis is pending; both are accepted and detected by 3 server-thread round trips)")
     run.assume("closed files: the client writes the buffer to disk before didClose, so disk == last buffer; "
                "files are only created/changed on disk through notifications the server supports")
-    nhist = args.budget("histories", 10, 300)
+    nhist = args.budget("histories", 10, 250)
     nmsgs = args.budget("messages", 25, 80)
     jobs = int(args.extra.get("jobs", 4 if not args.thorough() else 6))
     timeout = float(args.extra.get("timeout", 180))
